@@ -24,6 +24,19 @@ def _is_digit(ch: str) -> bool:
     return "0" <= ch <= "9"
 
 
+def _case_codes(ch: str) -> Tuple[int, ...]:
+    """Code points of ch and of its lower/upper case forms.
+
+    A case form that is not a single character (the lower case of U+0130, the
+    upper case of U+00DF) does not take part in case-insensitive matching.
+    """
+    codes = [ord(ch)]
+    for form in (ch.lower(), ch.upper()):
+        if len(form) == 1:
+            codes.append(ord(form))
+    return tuple(codes)
+
+
 def _is_word(ch: str) -> bool:
     return ch == "_" or ("0" <= ch <= "9") or ("a" <= ch <= "z") or ("A" <= ch <= "Z")
 
@@ -226,10 +239,7 @@ class RegexVM:
                     else:
                         ch = string[sp]
                         if self.ignorecase:
-                            ok = (
-                                ord(ch.lower()) == char_code
-                                or ord(ch.upper()) == char_code
-                            )
+                            ok = char_code in _case_codes(ch)
                         else:
                             ok = ord(ch) == char_code
                         sp += 1
@@ -452,7 +462,7 @@ class RegexVM:
     def _in_ranges(self, ch: str, ranges) -> bool:
         """Whether ch (or, ignoring case, one of its case forms) lies in ranges."""
         if self.ignorecase:
-            codes = (ord(ch.lower()), ord(ch.upper()))
+            codes = _case_codes(ch)
         else:
             codes = (ord(ch),)
         for start, end in ranges:
